@@ -16,7 +16,7 @@
 (* keyperimpl/snapshot/trigger.go, gnosisaccessnode/decryptionkeyshandler.go*)
 (* p2p/message.go, p2pmsg/messages.go.                                     *)
 (*                                                                         *)
-(* A CASE c = [fl, topic, m, bytes, recv, mode]:                           *)
+(* A CASE c = [fl, topic, m, bytes, recv, mode, ver, tp, instv]:            *)
 (*  fl     node flavour                                                    *)
 (*  topic  the subscribed topic the delivery arrives on                    *)
 (*  m      the structured message class (type m.ty; m.ty # topic: a        *)
@@ -29,6 +29,18 @@
 (*         collator / eon rows present), "primed" (ready + keys, one share *)
 (*         and T-1 signatures stored so that handlers take their long paths)*)
 (*                                                                         *)
+(*  ver    class of the envelope version string: ok ("0.0.1") | empty |     *)
+(*         t1 "0" | t2 "0." | t3 "0.0" | t4 "0.0." (the truncations) | one  *)
+(*         "1" | dot0 ".0" | patch "0.0.2" | minor "0.1.1" | longer          *)
+(*         "0.0.1.0" | long (64 KiB) | nonascii.  Unmarshal demands the exact  *)
+(*         version, every other class is refused before the Any is looked at*)
+(*  tp     class of the topic field of the pubsub message handed to the    *)
+(*         validator registered for `topic`: ok | nil (no topic field) |   *)
+(*         empty | trunc (last character missing) | upper | sibling        *)
+(*         (another subscribed topic); the closure of addValidatorImpl     *)
+(*         refuses everything but ok (libp2p itself only hands ok)         *)
+(*  instv  the instance id carried when m.inst is FALSE: p1 (ours + 1) |   *)
+(*         m1 | zero | p63 (2^63) | max (2^64 - 1); p1 when m.inst is TRUE *)
 (*  mode   how the delivery is executed (the code-shaped outcome does not   *)
 (*         depend on it):                                                  *)
 (*         "handle"  combined validator, then P2PMessaging.Handle          *)
@@ -53,7 +65,10 @@
 (*          nsigs, sigq]                                                   *)
 (*  eonpk  [ty, inst, pk, sig, big]                                        *)
 (*  trigger [ty, inst, block, sig, idn]                                    *)
-(*  commitment [ty, inst, match, nids, idhex, bidsig, digest, block]       *)
+(*  commitment [ty, inst, lens, nids, badid, bidsig, digest, block]        *)
+(*   lens: eq | idsMore (one identity more than tx hashes) | txMore        *)
+(*   badid: which identity is not hex: none | first | last (with idsMore   *)
+(*         the one beyond the tx hash list) | all                          *)
 (*   ents: one | two | none | many | unordered | invalid | badlen |        *)
 (*         undecodable          (the share / key list)                     *)
 (*   idlen: fit (identities have the SSZ size of the flavour) | off        *)
@@ -64,7 +79,9 @@
 (*         (2^63-1) | p63 (2^63: negative as int64) | p64m1 (2^64-1)       *)
 (*   nsigs: eq | none | fewer | more   (number of signatures relative to   *)
 (*         the number of signer indices)                                   *)
-(*   sigq: valid | wrongSigner | garbage | short                           *)
+(*   sigq: valid | wrongSigner | garbage | short; sigpos: which signature  *)
+(*         has that quality (the others are genuine): all | first | last   *)
+(*         (with nsigs = more the one beyond the signer list)              *)
 (*                                                                         *)
 (* Variants (the as-found behaviour is kept as a named alternative):       *)
 (*   SenderCheck  "checked" (fix C04-1) | "asfound"                        *)
@@ -169,13 +186,20 @@ ServiceSharesV(c) ==
 LastIdxInRange(m) == SignersLen(m.signers) = 0 \/ m.lastidx = "in"
 SignerIdxOk(m) == m.signers \notin {"dup", "unordered"} /\ LastIdxInRange(m)
 
-(* the loop `for i := 0; i < len(Signatures); i++ { signer := signers[i]; CheckSignature }`:
-   every signature has quality sigq; with more signatures than signers the ones that have a
-   signer are checked first *)
+(* the loop `for i := 0; i < len(Signatures); i++ { signer := signers[i]; CheckSignature }`.
+   FirstBad = position of the first signature CheckSignature refuses (0: none): with identities of
+   the wrong size every one; otherwise the ones of quality sigq at sigpos.  Indexing signers[i]
+   beyond the signer list comes before checking that signature. *)
+FirstBad(m) ==
+    IF NSigs(m) = 0 THEN 0
+    ELSE IF Count(m.ents) > 0 /\ m.idlen # "fit" THEN 1
+    ELSE IF m.sigq = "valid" THEN 0
+    ELSE IF m.sigpos = "last" THEN NSigs(m) ELSE 1
 SigLoop(m) ==
-    IF NSigs(m) = 0 THEN "accept"
-    ELSE IF ~SigOk(m, m.sigq) THEN "reject"
-    ELSE IF NSigs(m) > SignersLen(m.signers) THEN "panic"
+    LET bad == FirstBad(m)  n == SignersLen(m.signers) IN
+    IF bad # 0 /\ bad <= n THEN "reject"
+    ELSE IF NSigs(m) > n THEN "panic"
+    ELSE IF bad # 0 THEN "reject"
     ELSE "accept"
 
 (* gnosis.ValidateDecryptionKeysSignatures (also used by the access node) *)
@@ -234,7 +258,7 @@ TriggerV(c) ==
 
 (* primev.PrimevCommitmentHandler.ValidateMessage *)
 CommitmentV(c) ==
-    IF ~c.m.match THEN "reject" ELSE IF ~c.m.inst THEN "reject" ELSE "accept"
+    IF c.m.lens # "eq" THEN "reject" ELSE IF ~c.m.inst THEN "reject" ELSE "accept"
 
 ----------------------------------------------------------------------------
 (* handlers: "ok" | "error" | "panic" *)
@@ -249,7 +273,7 @@ CommitmentH(c) ==
     LET m == c.m IN
     IF BidSigLen(m.bidsig) < 65 THEN (IF BidSigCheck = "checked" THEN "error" ELSE "panic")
     ELSE IF m.bidsig \in {"garbage65", "long"} \/ m.digest # "ok" THEN "error"     \* crypto.SigToPub
-    ELSE IF m.nids > 0 /\ m.idhex # "ok" THEN "error"                              \* hex.DecodeString
+    ELSE IF m.nids > 0 /\ m.badid # "none" THEN "error"                            \* hex.DecodeString
     ELSE IF c.recv = "empty" \/ m.block # "known" THEN "error"                     \* GetEonForBlockNumber
     ELSE IF m.nids = 0 THEN "error"                                                \* ARRAY_AGG over zero rows is NULL
     ELSE "ok"
@@ -287,7 +311,9 @@ Combined(vs, i, c) ==
 (* the closure of addValidatorImpl in front of every validator: unmarshal + Validate() of the
    carried type (a share / key that does not unmarshal), type check *)
 Validation(c) ==
-    IF c.m.ty \in {"shares", "keys"} /\ ~AllDecode(c.m.ents) THEN "reject"
+    IF c.tp # "ok" THEN "reject"                                 \* message.GetTopic() != topic
+    ELSE IF c.ver # "ok" THEN "reject"                           \* p2pmsg.Unmarshal: exact envelope version
+    ELSE IF c.m.ty \in {"shares", "keys"} /\ ~AllDecode(c.m.ents) THEN "reject"
     ELSE IF c.m.ty # c.topic THEN "reject"
     ELSE Combined(ValidatorsOf(c.fl, c.topic), 1, c)
 
